@@ -345,3 +345,114 @@ func RuleFF1(c *Ctx) {
 		sc.Undecided("sites", "-", "no scanner constructor call behind a file read found in core")
 	}
 }
+
+// ---------------------------------------------------------------- JS1
+
+// RuleJS1: "JSIGHT is not allowed in an included file" is decided by the include stack
+// itself. The rejection in the keyword handler that is taken for the JSIGHT keyword is
+// reached under the fact that the stack of suspended scanners is not empty (a method of
+// scanner.Stack without arguments answering bool), not under a flag kept beside the stack:
+// a flag set on INCLUDE and cleared on every pop is wrong as soon as includes nest (after
+// the inner file ends the outer one is still an included file).
+func RuleJS1(c *Ctx) {
+	sc := c.Run.Begin("JS1", "the JSIGHT-in-an-included-file rejection is guarded by the emptiness of the scanner stack itself", 1)
+	defer sc.End()
+	pk := c.P.Pkg("core")
+	dpk := c.P.Pkg("directive")
+	stackT := c.Named("scanner", "Stack")
+	if pk == nil || dpk == nil || stackT == nil {
+		sc.Undecided("anchors", "-", "unresolved anchor: core / directive / scanner.Stack")
+		return
+	}
+	jsight, _ := dpk.Types.Scope().Lookup("Jsight").(*types.Const)
+	if jsight == nil {
+		sc.Undecided("anchors", "-", "unresolved anchor: directive.Jsight")
+		return
+	}
+	info := pk.TypesInfo
+	mentionsJsight := func(e ast.Node) bool {
+		hit := false
+		ast.Inspect(e, func(n ast.Node) bool {
+			if sel, ok := n.(*ast.SelectorExpr); ok && info.ObjectOf(sel.Sel) == types.Object(jsight) {
+				hit = true
+			}
+			return !hit
+		})
+		return hit
+	}
+	isStackEmptiness := func(e ast.Expr) bool {
+		call, ok := ast.Unparen(e).(*ast.CallExpr)
+		if !ok || len(call.Args) != 0 {
+			return false
+		}
+		g := Callee(info, call)
+		if g == nil || recvNamedOf(g) != stackT {
+			return false
+		}
+		b, ok := g.Type().(*types.Signature).Results().At(0).Type().Underlying().(*types.Basic)
+		return ok && b.Kind() == types.Bool
+	}
+	n := 0
+	c.P.Funcs(func(p *pkgT, fd *ast.FuncDecl) {
+		if p != pk {
+			return
+		}
+		ast.Inspect(fd.Body, func(x ast.Node) bool {
+			ret, ok := x.(*ast.ReturnStmt)
+			if !ok || len(ret.Results) == 0 {
+				return true
+			}
+			last := ret.Results[len(ret.Results)-1]
+			if tv, has := info.Types[last]; !has || tv.IsNil() || !isErrorLike(info.TypeOf(last)) {
+				return true
+			}
+			body := innermostBody(fd, ret)
+			cf := c.CFG(pk, body.body)
+			facts := cf.FactsAt(ret)
+			// the rejection taken for the JSIGHT keyword: some atomic fact compares with Jsight
+			forJsight := false
+			for _, fa := range facts {
+				if be, ok := ast.Unparen(fa.Expr).(*ast.BinaryExpr); ok && (be.Op == token.EQL && fa.Truth || be.Op == token.NEQ && !fa.Truth) && mentionsJsight(be) {
+					forJsight = true
+				}
+			}
+			if !forJsight {
+				return true
+			}
+			// ... that depends on where the scan is: it has further atomic facts
+			var others []cfgx.Fact
+			byStack := false
+			for _, fa := range facts {
+				e := ast.Unparen(fa.Expr)
+				if be, ok := e.(*ast.BinaryExpr); ok && (be.Op == token.LAND || be.Op == token.LOR || mentionsJsight(be)) {
+					continue
+				}
+				if u, ok := e.(*ast.UnaryExpr); ok && u.Op == token.NOT {
+					continue
+				}
+				if be, ok := e.(*ast.BinaryExpr); ok && (isNilIdentExpr(info, be.X) || isNilIdentExpr(info, be.Y)) {
+					continue
+				}
+				if isStackEmptiness(e) {
+					byStack = true
+					continue
+				}
+				others = append(others, fa)
+			}
+			if !byStack && len(others) == 0 {
+				return true // a rejection of JSIGHT for another reason (e.g. not the first directive)
+			}
+			n++
+			key := fmt.Sprintf("%s#%d", c.P.DeclName(fd), n)
+			if byStack {
+				sc.Holds(key, c.P.Pos(ret.Pos()), "taken when the stack of suspended scanners is not empty")
+			} else {
+				sc.Violation(key, c.P.Pos(ret.Pos()), fmt.Sprintf("JSIGHT is refused under `%s`, not under the state of the scanner stack: a flag beside the stack goes wrong when includes nest - after a nested include returns, a JSIGHT in the still-included outer file is accepted", types.ExprString(others[0].Expr)))
+			}
+			return true
+		})
+	})
+	if n == 0 {
+		sc.Undecided("site", "-", "no rejection taken for the JSIGHT keyword under a condition on where the scan is")
+	}
+}
